@@ -2,3 +2,7 @@ import LianVerif.Model.PathStore
 import LianVerif.Spec.MaxPaths
 import LianVerif.Proofs.PathStore
 import LianVerif.Properties.C19
+import LianVerif.Model.Events
+import LianVerif.Spec.Events
+import LianVerif.Proofs.Events
+import LianVerif.Properties.C17
